@@ -169,14 +169,6 @@ def run(rep, prop=PROP):
         rres = list(ex.map(lambda o: dialrun.judge_real(o, admit, b['slack_us']), st['real']))
 
     rep.cov['stage_seconds'] = dict(st['t'], proof_stage=t_proof, parallel_part=t_par, judge=round(time.time() - t0, 1))
-    # a scripted scenario that "did not return" is re-run once on its own: only a hang that shows again is reported
-    hung = [p for p in problems if p[0] == 'impl-violates-spec' and '| impl=hung' in p[1]]
-    if hung and shim_bin:
-        res = exec_lines(None, shim_bin, hung[0][2], os.path.join(wd, 'confirm-hang'))
-        r2 = dialrun.judge_scripted(res['scripted']) if 'scripted' in res else {'problems': hung[:1]}
-        if not any('| impl=hung' in p[1] for p in r2['problems']):
-            problems = [p for p in problems if p not in hung]
-            rep.notes.append('scripted scenario timed out once but returned when re-run on its own (machine load): ' + hung[0][2][0][:200])
     # wall-clock bound: a dial that overshot its timeout by more than slack + measured scheduling noise is re-run
     # three times on its own; only an overshoot that shows every time is reported (a loaded machine is not a defect)
     cands = sorted((c for r in rres for c in r['bound_candidates']), reverse=True)
@@ -215,6 +207,14 @@ def run(rep, prop=PROP):
         if r['max_over_us'] is not None: max_over = r['max_over_us'] if max_over is None else max(max_over, r['max_over_us'])
         skipped |= set(r['skipped']); samples += r['samples'][:1]
 
+    # a scripted scenario that "did not return" is re-run once on its own: only a hang that shows again is reported
+    hung = [p for p in problems if p[0] == 'impl-violates-spec' and '| impl=hung' in p[1]]
+    if hung and shim_bin:
+        res = exec_lines(None, shim_bin, hung[0][2], os.path.join(wd, 'confirm-hang'))
+        r2 = dialrun.judge_scripted(res['scripted']) if 'scripted' in res else {'problems': hung[:1]}
+        if not any('| impl=hung' in p[1] for p in r2['problems']):
+            problems = [p for p in problems if p not in hung]
+            rep.notes.append('scripted scenario timed out once but returned when re-run on its own (machine load): ' + hung[0][2][0][:200])
     expected_branches = ['e0=115', 'e0=0', 'e0=106', 'e0=114', 'e0=4', 'e0=22', 'e0=99', 'e0=111', 'so=0', 'so=115', 'so=106', 'so=111', 'so=99',
                          'pick=w', 'pick=h', 'pick=c', 'regerr', 'ctlerr', 'gsoerr', 'peerfail', 'multi-event', 'late', 'selfconnect', 'nolocal', 'retry']
     rep.cov['evaluations'] = scen + dials + ncorpus
